@@ -1,7 +1,7 @@
 //! C11 — a multi-document stream is the list of its documents, each on its own.
 //!
 //! Differential oracle on the real code. A stream is *composed* by the generator
-//! from document bodies (one of 18 kinds) and separators, so the cut into
+//! from document bodies (one of 26 kinds) and separators, so the cut into
 //! documents is known by construction; it is then confirmed against the raw
 //! `saphyr-parser` event stream (number of `DocumentStart` events, and per
 //! document the same event shape as the body parsed on its own). Only confirmed
@@ -358,7 +358,8 @@ fn compose(bodies: &[String], seps: &[u8], trailer: u8) -> String {
             }
             _ => {
                 // content on the marker line (single-line bodies only)
-                if !b.is_empty() && !b.starts_with('#') && b.matches('\n').count() == 1 && b.ends_with('\n') {
+                // (not a block mapping: `--- a: 1` is not a document `a: 1`)
+                if b.matches('\n').count() == 1 && b.ends_with('\n') && b.starts_with(|c: char| !c.is_ascii_alphabetic() && c != '#' && c != '\n') {
                     s.push_str("--- ");
                 } else {
                     s.push_str("---\n");
